@@ -392,10 +392,12 @@ class IndexedSet(MutableSet):
     def iter_slice(self, start, stop, step=None):
         "iterate over a slice of the set"
         iterable = self
+        # iteration already skips the dead slots, so the bounds are
+        # positions among the live items, normalized like list slices
         if start is not None:
-            start = self._get_real_index(start)
+            start = slice(start, None).indices(len(self))[0]
         if stop is not None:
-            stop = self._get_real_index(stop)
+            stop = slice(None, stop).indices(len(self))[1]
         if step is not None and step < 0:
             step = -step
             iterable = reversed(self)
